@@ -695,6 +695,7 @@ class RepairMonitor:
     def __init__(self):
         self.repair = []  # dicts
         self.addh = []
+        self.addh_raised = 0
         self.splits = []
 
     def active(self):
@@ -774,11 +775,18 @@ class RepairMonitor:
                 lg.addHandler(h)
                 lg.setLevel(logging.WARNING)
                 recs = snap(self_)
+                raised = False
                 try:
                     return o_add(self_, hlist)
+                except BaseException:
+                    raised = True  # the run ends here (loudly): half-processed residues are not a final state
+                    raise
                 finally:
                     lg.removeHandler(h)
                     lg.setLevel(old)
+                    if raised:
+                        mon.addh_raised += 1
+                        recs = []
                     for r in recs:
                         r["after"] = [a.name for a in r["res"].atoms]
                         r["failed"] = [m.split()[2] for m in h.msgs if m.startswith("Couldn't rebuild ") and m.endswith(f"in {r['key']}!")]
@@ -1817,6 +1825,8 @@ def run(ctx):
         if finished and len(ctx.cov["samples"]) < 3:
             ctx.sample({"structure": tag, "args": r["args"], "atoms_in": len(atoms), "pqr_lines": len((r["pqr_text"] or "").splitlines()), "unassigned": len(r["result"][0] or []), "failures": nf})
         if r.get("rmon") is not None:
+            if r["rmon"].addh_raised:
+                ctx.count("add_hydrogens-raised (run aborted, not compared)")
             for term, exp, case in repair_terms(r["rmon"]):
                 if term not in rseen and len(rterms) < (4000 if ctx.thorough else 700):
                     rseen.add(term)
